@@ -54,24 +54,79 @@ func precSpec(r *Rng, maxLevels, maxOps int) (*GSpec, []opInfo) {
 	return s, ops
 }
 
+// precSpec2: two expression rules over the SAME operator tokens with their own levels and associativities
+// (levels are local to a rule):  e = e OP e @..(a) | ATOM | LP e RP | LB ty RB ;  ty = ty OP ty @..(b) | TATOM.
+// Tokens: ATOM LP RP OP0… LB RB TATOM. ops2[i] is the qualifier of OPi inside ty.
+func precSpec2(r *Rng, maxLevels, maxOps int) (*GSpec, []opInfo, []opInfo) {
+	s, ops := precSpec(r, maxLevels, maxOps)
+	for len(ops) < 2 {
+		s, ops = precSpec(r, maxLevels, maxOps)
+	}
+	n := len(ops)
+	s.Tokens = append(s.Tokens, "LB", "RB", "TATOM")
+	lb, rb, ta := 3+n, 4+n, 5+n
+	// the second table: the levels of the first one handed to other operators (a rotation, so every shared
+	// operator changes its level unless all are equal), associativity drawn per level again
+	ops2 := make([]opInfo, n)
+	rightOf := map[int]bool{}
+	for i := range ops {
+		p := ops[(i+1+r.Intn(n-1))%n].prec
+		if _, ok := rightOf[p]; !ok {
+			rightOf[p] = r.Chance(1, 3)
+		}
+		ops2[i] = opInfo{p, rightOf[p]}
+	}
+	e := s.Rules[0]
+	e.Prods = append(e.Prods, &GProd{Terms: []*GTerm{{Kind: KTok, Tok: lb}, {Kind: KRule, Rule: 1}, {Kind: KTok, Tok: rb}}})
+	ty := &GRule{Name: "ty"}
+	for i, o := range ops2 {
+		ty.Prods = append(ty.Prods, &GProd{
+			Terms: []*GTerm{{Kind: KRule, Rule: 1}, {Kind: KTok, Tok: 3 + i}, {Kind: KRule, Rule: 1}},
+			Prec:  o.prec, Right: o.right,
+		})
+	}
+	ty.Prods = append(ty.Prods, &GProd{Terms: []*GTerm{{Kind: KTok, Tok: ta}}})
+	s.Rules = append(s.Rules, ty)
+	return s, ops, ops2
+}
+
 // climb renders the tree precedence climbing builds for tokens w (indices into spec.Tokens),
-// or "" if w is not an expression.
-func climb(ops []opInfo, w []int, forceLeft bool) string {
+// or "" if w is not an expression. ops2 != nil: the two-rule grammar of precSpec2.
+func climb(ops []opInfo, w []int, forceLeft bool) string { return climb2(ops, nil, w, forceLeft) }
+
+func climb2(ops, ops2 []opInfo, w []int, forceLeft bool) string {
 	pos := 0
-	var expr func(minPrec int) (string, bool)
-	atom := func() (string, bool) {
+	n := len(ops)
+	var expr func(tab []opInfo, rule int, minPrec int) (string, bool)
+	atom := func(rule int) (string, bool) {
 		if pos >= len(w) {
 			return "", false
 		}
-		switch w[pos] {
-		case 0:
+		if rule == 2 {
+			if w[pos] == 5+n {
+				pos++
+				return fmt.Sprintf("(r2 t%d)", pos-1), true
+			}
+			return "", false
+		}
+		switch {
+		case w[pos] == 0:
 			pos++
 			return fmt.Sprintf("(r1 t%d)", pos-1), true
-		case 1:
+		case w[pos] == 1:
 			l := pos
 			pos++
-			in, ok := expr(1)
+			in, ok := expr(ops, 1, 1)
 			if !ok || pos >= len(w) || w[pos] != 2 {
+				return "", false
+			}
+			pos++
+			return fmt.Sprintf("(r1 t%d %s t%d)", l, in, pos-1), true
+		case ops2 != nil && w[pos] == 3+n:
+			l := pos
+			pos++
+			in, ok := expr(ops2, 2, 1)
+			if !ok || pos >= len(w) || w[pos] != 4+n {
 				return "", false
 			}
 			pos++
@@ -79,13 +134,13 @@ func climb(ops []opInfo, w []int, forceLeft bool) string {
 		}
 		return "", false
 	}
-	expr = func(minPrec int) (string, bool) {
-		lhs, ok := atom()
+	expr = func(tab []opInfo, rule int, minPrec int) (string, bool) {
+		lhs, ok := atom(rule)
 		if !ok {
 			return "", false
 		}
-		for pos < len(w) && w[pos] >= 3 {
-			o := ops[w[pos]-3]
+		for pos < len(w) && w[pos] >= 3 && w[pos] < 3+n {
+			o := tab[w[pos]-3]
 			if o.prec < minPrec {
 				break
 			}
@@ -95,15 +150,15 @@ func climb(ops []opInfo, w []int, forceLeft bool) string {
 			if o.right && !forceLeft {
 				next = o.prec
 			}
-			rhs, ok := expr(next)
+			rhs, ok := expr(tab, rule, next)
 			if !ok {
 				return "", false
 			}
-			lhs = fmt.Sprintf("(r1 %s t%d %s)", lhs, opPos, rhs)
+			lhs = fmt.Sprintf("(r%d %s t%d %s)", rule, lhs, opPos, rhs)
 		}
 		return lhs, true
 	}
-	t, ok := expr(1)
+	t, ok := expr(ops, 1, 1)
 	if !ok || pos != len(w) {
 		return ""
 	}
@@ -120,7 +175,7 @@ func init() {
 		WriteModule(root)
 		n := c.N
 		var specs []*GSpec
-		var tabs [][]opInfo
+		var tabs, tabs2 [][]opInfo
 		var names, loxs, gos []string
 		for i := 0; i < n; i++ {
 			ml, mo := 3, 2
@@ -128,8 +183,14 @@ func init() {
 				ml, mo = 5, 3
 			}
 			s, ops := precSpec(c.Rng, ml, mo)
+			var ops2 []opInfo
+			if i%3 == 1 {
+				// every third grammar has a second expression rule sharing the operator tokens at other levels
+				s, ops, ops2 = precSpec2(c.Rng, ml, mo)
+				c.Count("two-rule-tables")
+			}
 			name := fmt.Sprintf("e%04d", i)
-			specs, tabs = append(specs, s), append(tabs, ops)
+			specs, tabs, tabs2 = append(specs, s), append(tabs, ops), append(tabs2, ops2)
 			names, loxs, gos = append(names, name), append(loxs, s.Lox()), append(gos, s.GoSource(name))
 		}
 		pkgs := GenerateAll(root, names, loxs, gos, false)
@@ -153,10 +214,13 @@ func init() {
 			if !p.OK {
 				continue
 			}
-			s, ops := specs[i], tabs[i]
+			s, ops, ops2 := specs[i], tabs[i], tabs2[i]
 			flat := strings.ReplaceAll(strings.TrimSpace(p.Lox), "\n", " ⏎ ")
 			hasRight := false
 			for _, o := range ops {
+				hasRight = hasRight || o.right
+			}
+			for _, o := range ops2 {
 				hasRight = hasRight || o.right
 			}
 			if hasRight {
@@ -196,6 +260,35 @@ func init() {
 				}
 				ins = append(ins, w)
 			}
+			if ops2 != nil {
+				// the second rule inside brackets: LB TATOM (op TATOM)^k RB for all operator sequences, alone and as an operand
+				nops := len(ops)
+				lb, rb, ta := 3+nops, 4+nops, 5+nops
+				var rec2 func(cur []int, k int)
+				cnt := 0
+				rec2 = func(cur []int, k int) {
+					cnt++
+					ins = append(ins, append(append([]int{lb}, cur...), rb))
+					if k >= 2 {
+						ins = append(ins, append(append([]int{0, 3 + c.Rng.Intn(nops), lb}, cur...), rb, 3+c.Rng.Intn(nops), 0))
+					}
+					if k == maxK || cnt > 1500 {
+						return
+					}
+					for o := range ops {
+						rec2(append(append([]int(nil), cur...), 3+o, ta), k+1)
+					}
+				}
+				rec2([]int{ta}, 0)
+				for k := 0; k < 15; k++ {
+					w := []int{lb, ta}
+					l := 3 + c.Rng.Intn(8)
+					for j := 0; j < l; j++ {
+						w = append(w, 3+c.Rng.Intn(nops), ta)
+					}
+					ins = append(ins, append(w, rb))
+				}
+			}
 			var reqs []string
 			for _, w := range ins {
 				ty := make([]int, len(w))
@@ -206,7 +299,7 @@ func init() {
 			}
 			outs := RunMux(bin, reqs)
 			for j, w := range ins {
-				want := climb(ops, w, false)
+				want := climb2(ops, ops2, w, false)
 				got := ""
 				evs := strings.Split(outs[j], " ; ")
 				if strings.HasPrefix(evs[0], "acc") {
@@ -218,7 +311,7 @@ func init() {
 				}
 				or := ""
 				if got != want {
-					if hasRight && got == climb(ops, w, true) {
+					if hasRight && got == climb2(ops, ops2, w, true) {
 						or = "K1: @right groups left-to-right: want " + want + " got " + got
 						c.Count("runs-explained-by-K1")
 					} else {
